@@ -925,4 +925,310 @@ theorem Json.eqO_of_beqO : ∀ (a b : List (String × Json)), Json.beqO a b = tr
       rw [h.1.1, Json.eq_of_beq x y h.1.2, Json.eqO_of_beqO xs ys h.2]
 end
 
+/-! ### rebuilding, `None`, what `json.loads` returns -/
+
+theorem deserialize_none (c : PCfg) : c.deserialize .none = .ok .none := by
+  cases c <;> simp [PCfg.deserialize, isNullish]
+
+mutual
+theorem loads_jsonNative : ∀ j : Json, (loads j).jsonNative = true
+  | .null => rfl
+  | .bool _ => rfl
+  | .int _ => rfl
+  | .float _ => rfl
+  | .str _ => rfl
+  | .arr l => by simpa [loads, PyVal.jsonNative] using loadsL_jsonNative l
+  | .obj kvs => by simpa [loads, PyVal.jsonNative] using loadsD_jsonNative kvs
+theorem loadsL_jsonNative : ∀ l : List Json, PyVal.jsonNativeL (loadsL l) = true
+  | [] => rfl
+  | a :: as => by simp [loadsL, PyVal.jsonNativeL, loads_jsonNative a, loadsL_jsonNative as]
+theorem loadsD_jsonNative : ∀ l : List (String × Json), PyVal.jsonNativeD (loadsD l) = true
+  | [] => rfl
+  | (k, a) :: as => by
+    simp [loadsD, PyVal.jsonNativeD, PyVal.isStrKey, loads_jsonNative a, loadsD_jsonNative as]
+end
+
+/-- reading the keyword values back in declaration order gives the keywords themselves when they
+are one per declared parameter, in order -/
+theorem find_back (st : List (Param × PyVal)) (hnd : ((st.map (·.1)).map (·.name)).Nodup) :
+    ∀ pv ∈ st, (st.map (fun pv => (pv.1.name, pv.2))).find? (fun x => x.1 == pv.1.name) = some (pv.1.name, pv.2) := by
+  induction st with
+  | nil => intro pv h; simp at h
+  | cons a as ih =>
+    intro pv hpv
+    simp only [List.map_cons, List.nodup_cons] at hnd
+    rcases List.mem_cons.1 hpv with e | e
+    · subst e; simp
+    · have hne : a.1.name ≠ pv.1.name := by
+        intro h
+        exact hnd.1 (List.mem_map.2 ⟨pv.1, List.mem_map.2 ⟨pv, e, rfl⟩, h.symm⟩)
+      simp only [List.map_cons, List.find?_cons]
+      have : (a.1.name == pv.1.name) = false := by simpa using hne
+      simp only [this]
+      exact ih hnd.2 pv e
+
+theorem rebuild_state (st : List (Param × PyVal)) (hnd : ((st.map (·.1)).map (·.name)).Nodup)
+    (hv : ∀ pv ∈ st, pv.1.validB pv.2 = true) :
+    modelRebuild (st.map (·.1)) (st.map (fun pv => (pv.1.name, pv.2))) =
+      .ok (st.map (fun pv => (pv.1.name, pv.2))) := by
+  unfold modelRebuild
+  have hall : (st.map (fun pv => (pv.1.name, pv.2))).all
+      (fun (n, v) => match findParam (st.map (·.1)) n with | some p => p.validB v | none => false) = true := by
+    simp only [List.all_map, List.all_eq_true]
+    intro pv hpv
+    have := findParam_of_nodup _ hnd pv.1 (List.mem_map.2 ⟨pv, hpv, rfl⟩)
+    simp [this, hv pv hpv]
+  split
+  case isFalse h => exact absurd hall h
+  congr 1
+  rw [List.filterMap_map]
+  have : ∀ l : List (Param × PyVal), (∀ pv ∈ l, pv ∈ st) →
+      l.filterMap ((fun p : Param => (st.map (fun pv => (pv.1.name, pv.2))).find? (fun x => x.1 == p.name)) ∘ (·.1)) =
+        l.map (fun pv => (pv.1.name, pv.2)) := by
+    intro l
+    induction l with
+    | nil => intro _; rfl
+    | cons a as ih =>
+      intro h
+      simp only [List.filterMap_cons, Function.comp, find_back st hnd a (h a List.mem_cons_self), List.map_cons]
+      rw [← ih (fun pv hpv => h pv (List.mem_cons_of_mem _ hpv))]
+  exact this st (fun _ h => h)
+
+/-! ### totality: `schema()` and `serialize_parameters()` return -/
+
+theorem literalTypes_dumpsL : ∀ {objs : List PyVal} {ts : List String}, literalTypes objs = some ts →
+    ∃ js, dumpsL objs = .ok js
+  | [], _, _ => ⟨[], rfl⟩
+  | o :: os, ts, h => by
+    simp only [literalTypes] at h
+    split at h
+    · simp at h
+    · rename_i t ht
+      split at h
+      · simp at h
+      · rename_i ts' hts'
+        obtain ⟨js, hjs⟩ := literalTypes_dumpsL hts'
+        have : ∃ j, dumps o = .ok j := by
+          cases o <;> simp [literalType] at ht <;> exact ⟨_, rfl⟩
+        obtain ⟨j, hj⟩ := this
+        exact ⟨j :: js, by simp [dumpsL, hj, hjs]⟩
+
+/-- the declarations for which `schema()` returns a schema at all: the `length` slot of the Tuple
+family is defined (the constructor raises otherwise), and a ListSelector's objects are literal-typed
+(`listselector_schema` raises UnserializableException otherwise — a declared refusal) -/
+def Declarable (p : Param) : Bool :=
+  match p.cfg with
+  | .tuple _ => p.length.toBool
+  | .numericTuple _ => p.length.toBool
+  | .xy => p.length.toBool
+  | .range _ => p.length.toBool
+  | .listSelector objs => (literalTypes objs).isSome
+  | _ => true
+
+theorem baseSchema_total (p : Param) (h : Declarable p = true) : ∃ s, p.baseSchema = .ok s := by
+  obtain ⟨name, cfg, an, dflt, doc, label⟩ := p
+  cases cfg <;> simp only [Param.baseSchema, Declarable] at h ⊢
+  case tuple n => split <;> simp_all [Except.toBool]
+  case numericTuple n => split <;> simp_all [Except.toBool]
+  case xy => split <;> simp_all [Except.toBool]
+  case range b => split <;> simp_all [Except.toBool]
+  case list it lo hi => cases it <;> exact ⟨_, rfl⟩
+  case selector objs =>
+    simp only [selectorSchema]
+    split
+    · exact ⟨_, rfl⟩
+    · exact ⟨_, rfl⟩
+    · rename_i ts _ hts
+      obtain ⟨js, hjs⟩ := literalTypes_dumpsL hts
+      simp [hjs]
+  case listSelector objs =>
+    simp only [listSelectorSchema]
+    split
+    · rename_i hts; simp [hts] at h
+    · rename_i ts hts
+      obtain ⟨js, hjs⟩ := literalTypes_dumpsL hts
+      simp [hjs]
+  all_goals exact ⟨_, rfl⟩
+
+theorem schemaEntry_total (p : Param) (h : Declarable p = true) : ∃ s, p.schemaEntry = .ok s := by
+  obtain ⟨s, hs⟩ := baseSchema_total p h
+  simp [Param.schemaEntry, Param.schema, hs]
+
+theorem schemaEntries_total (subset : Option (List String)) : ∀ (ps : List Param),
+    (∀ p ∈ ps, Declarable p = true) → ∃ entries, schemaEntries subset ps = .ok entries
+  | [], _ => ⟨[], rfl⟩
+  | p :: ps, h => by
+    obtain ⟨r, hr⟩ := schemaEntries_total subset ps (fun q hq => h q (List.mem_cons_of_mem _ hq))
+    obtain ⟨s, hs⟩ := schemaEntry_total p (h p List.mem_cons_self)
+    simp only [schemaEntries]
+    split
+    · exact ⟨r, hr⟩
+    · exact ⟨(p.name, s) :: r, by simp [hs, hr]⟩
+
+theorem serializeParameters_total (subset : Option (List String)) : ∀ (st : List (Param × PyVal)),
+    (∀ pv ∈ st, ∃ j, serializeValue pv.1 pv.2 = .ok j) → ∃ fields, serializeParameters st subset = .ok fields
+  | [], _ => ⟨[], rfl⟩
+  | (p, v) :: rest, h => by
+    obtain ⟨fields, hf⟩ := serializeParameters_total subset rest (fun pv hpv => h pv (List.mem_cons_of_mem _ hpv))
+    obtain ⟨j, hj⟩ := h (p, v) List.mem_cons_self
+    unfold serializeParameters at hf ⊢
+    by_cases hsub : inSubset subset p.name = true
+    · simp only [serializeValue] at hj
+      split at hj
+      · simp at hj
+      · rename_i s hs
+        split at hf
+        · simp at hf
+        · rename_i comps hcomps
+          exact ⟨(p.name, j) :: fields, by simp [serializeComponents, hsub, hs, hcomps, dumpsFields, hj, hf]⟩
+    · simp only [Bool.not_eq_true] at hsub
+      exact ⟨fields, by simpa [serializeComponents, hsub] using hf⟩
+
+
+theorem dumps_of_native {v : PyVal} (h : v.jsonNative = true) : ∃ j, dumps v = .ok j :=
+  let ⟨j, hj, _⟩ := loads_dumps v h; ⟨j, hj⟩
+
+theorem serializeValue_total (p : Param) (v : PyVal) (hsc : inScope16 p.cfg = true)
+    (hst : p.stateOK v = true) (hn : nativeElems p.cfg v = true) : ∃ j, serializeValue p v = .ok j := by
+  have hcases : p.validB v = true ∨ v = .none := by
+    unfold Param.stateOK at hst
+    simp only [Bool.or_eq_true] at hst
+    rcases hst with h | h
+    · exact Or.inl h
+    · right; split at h <;> simp_all
+  rcases hcases with hv | rfl
+  case inr => exact ⟨.null, by simp [serializeValue, serialize_none, dumps]⟩
+  have ident : p.cfg.isIdentity = true → v.jsonNative = true → ∃ j, serializeValue p v = .ok j := by
+    intro hc hnat
+    obtain ⟨j, hj⟩ := dumps_of_native hnat
+    exact ⟨j, by simp [serializeValue, serialize_identity hc, hj]⟩
+  have tup : ∀ l, v = .tuple l → p.cfg.serialize v = asList v → PyVal.jsonNativeL l = true →
+      ∃ j, serializeValue p v = .ok j := by
+    intro l hl hser hnat
+    subst hl
+    obtain ⟨j, hj, _⟩ := tuple_roundtrip hnat
+    exact ⟨j, by simp [serializeValue, hser, asList, hj]⟩
+  obtain ⟨name, cfg, an, dflt, doc, label⟩ := p
+  cases cfg with
+  | integer b => exact ident rfl (by cases v <;> simp [Param.validB, PCfg.accepts] at hv <;> rfl)
+  | number b => exact ident rfl (by cases v <;> simp [Param.validB, PCfg.accepts] at hv <;> rfl)
+  | string => exact ident rfl (by cases v <;> simp [Param.validB, PCfg.accepts] at hv <;> rfl)
+  | boolean => exact ident rfl (by cases v <;> simp [Param.validB, PCfg.accepts] at hv <;> rfl)
+  | color => simp [inScope16] at hsc
+  | dateRange => simp [inScope16] at hsc
+  | calendarDateRange => simp [inScope16] at hsc
+  | list it lo hi => exact ident rfl (by simpa [nativeElems] using hn)
+  | dict => exact ident rfl (by simpa [nativeElems] using hn)
+  | selector objs => exact ident rfl (by simpa [nativeElems] using hn)
+  | listSelector objs => exact ident rfl (by simpa [nativeElems] using hn)
+  | classSelector sp => exact ident rfl (by simpa [nativeElems] using hn)
+  | tuple n =>
+    cases v <;> simp [Param.validB, PCfg.accepts] at hv
+    · exact ⟨.null, rfl⟩
+    · exact tup _ rfl rfl (by simpa [nativeElems] using hn)
+  | numericTuple n =>
+    cases v <;> simp [Param.validB, PCfg.accepts] at hv
+    · exact ⟨.null, rfl⟩
+    · exact tup _ rfl rfl (all_isNumber_nativeL (by simpa using hv.1))
+  | xy =>
+    cases v <;> simp [Param.validB, PCfg.accepts] at hv
+    · exact ⟨.null, rfl⟩
+    · exact tup _ rfl rfl (all_isNumber_nativeL (by simpa using hv.1))
+  | range b =>
+    cases v with
+    | none => exact ⟨.null, rfl⟩
+    | tuple l =>
+      rcases l with _ | ⟨x, _ | ⟨y, _ | ⟨z, r⟩⟩⟩ <;> simp [Param.validB, PCfg.accepts] at hv
+      exact tup _ rfl rfl (by simp [PyVal.jsonNativeL, isNumber_native hv.1.1.2, isNumber_native hv.1.2])
+    | _ => simp [Param.validB, PCfg.accepts] at hv
+  | date =>
+    cases v <;> simp [Param.validB, PCfg.accepts] at hv
+    · exact ⟨.null, rfl⟩
+    · exact ⟨_, rfl⟩
+    · exact ⟨_, rfl⟩
+  | calendarDate =>
+    cases v <;> simp [Param.validB, PCfg.accepts] at hv
+    · exact ⟨.null, rfl⟩
+    · exact ⟨_, rfl⟩
+
+theorem Fl.eqv_symm {x y : Fl} (h : Fl.eqv x y = true) : Fl.eqv y x = true := by
+  cases x <;> cases y <;> simp [Fl.eqv] at h ⊢
+  exact h.symm
+
+theorem Fl.integral_of_eqv_int {x : Fl} {b : Int} (h : Fl.eqv x (Fl.ofInt b) = true) : x.isIntegral = true := by
+  cases x <;> simp [Fl.eqv, Fl.ofInt] at h
+  subst h
+  simp [Fl.isIntegral, Rat.den_intCast]
+
+/-- `v` serialises to a JSON value equal, in the JSON sense, to that of `o`: the same value, or two
+non-bool numbers of equal value (`1.0` for `1`) -/
+def sameJson (v o : PyVal) : Bool :=
+  match v, o with
+  | .int a, .float y => Fl.eqv (Fl.ofInt a) y
+  | .float x, .int b => Fl.eqv x (Fl.ofInt b)
+  | .float x, .float y => Fl.eqv x y
+  | v, o => PyVal.beq v o
+
+theorem sameJson_validates {v o : PyVal} {t : String} {jo j : Json} (ht : literalType o = some t)
+    (hdo : dumps o = .ok jo) (hs : sameJson v o = true) (hd : dumps v = .ok j) (hf : v.finite = true) :
+    hasType t j = true ∧ Json.scalarEq jo j = true := by
+  have same : PyVal.beq v o = true → hasType t j = true ∧ Json.scalarEq jo j = true := by
+    intro hb
+    have e := PyVal.eq_of_beq v o hb
+    subst e
+    rw [hd] at hdo; simp only [Except.ok.injEq] at hdo; subst hdo
+    obtain ⟨h1, h2⟩ := dumps_literal ht hd
+    exact ⟨h1, scalarEq_refl h2 (standard_dumps v j hf hd)⟩
+  cases v <;> cases o <;> simp only [sameJson] at hs <;> try exact same hs
+  · -- int, float
+    simp [literalType] at ht; subst ht
+    simp [dumps] at hdo hd; subst hdo; subst hd
+    exact ⟨by simp [hasType], by simpa [Json.scalarEq] using Fl.eqv_symm hs⟩
+  · -- float, int
+    simp [literalType] at ht; subst ht
+    simp [dumps] at hdo hd; subst hdo; subst hd
+    exact ⟨by simpa [hasType] using Fl.integral_of_eqv_int hs, by simpa [Json.scalarEq] using Fl.eqv_symm hs⟩
+  · -- float, float
+    simp [literalType] at ht; subst ht
+    simp [dumps] at hdo hd; subst hdo; subst hd
+    exact ⟨by simp [hasType], by simpa [Json.scalarEq] using Fl.eqv_symm hs⟩
+
+theorem dumpsL_mem' : ∀ {objs : List PyVal} {js : List Json} {o : PyVal},
+    dumpsL objs = .ok js → o ∈ objs → ∃ jo, dumps o = .ok jo ∧ jo ∈ js
+  | x :: xs, js, o, h, ho => by
+    simp only [dumpsL] at h
+    split at h
+    · simp at h
+    · rename_i j' hj'
+      split at h
+      · simp at h
+      · rename_i js' hjs'
+        simp only [Except.ok.injEq] at h; subst h
+        rcases List.mem_cons.1 ho with e | e
+        · subst e; exact ⟨j', hj', List.mem_cons_self⟩
+        · obtain ⟨jo, h1, h2⟩ := dumpsL_mem' hjs' e
+          exact ⟨jo, h1, List.mem_cons_of_mem _ h2⟩
+
+/-- a value JSON-equal to one of the literal-typed objects validates against the `anyOf`/`enum`
+pair of `selector_schema` -/
+theorem validate_selector' {objs : List PyVal} {ts : List String} {enum : List Json} {v o : PyVal} {j : Json}
+    (hts : literalTypes objs = some ts) (he : dumpsL objs = .ok enum) (ho : o ∈ objs)
+    (hs : sameJson v o = true) (hf : v.finite = true) (hd : dumps v = .ok j) :
+    validate (.obj [("anyOf", .arr (ts.map typeObj)), ("enum", .arr enum)]) j = true := by
+  obtain ⟨t, h1, h2⟩ := literalTypes_mem hts ho
+  obtain ⟨jo, hjo, hmem⟩ := dumpsL_mem' he ho
+  obtain ⟨h3, h4⟩ := sameJson_validates h1 hjo hs hd hf
+  simp only [validate, validateKws, Bool.and_true, Bool.and_eq_true, List.any_eq_true]
+  exact ⟨validateAny_typeObj h2 h3, jo, hmem, h4⟩
+
+theorem validate_enum' {objs : List PyVal} {ts : List String} {enum : List Json} {v o : PyVal} {j : Json}
+    (hts : literalTypes objs = some ts) (he : dumpsL objs = .ok enum) (ho : o ∈ objs)
+    (hs : sameJson v o = true) (hf : v.finite = true) (hd : dumps v = .ok j) :
+    validate (.obj [("enum", .arr enum)]) j = true := by
+  obtain ⟨t, h1, _⟩ := literalTypes_mem hts ho
+  obtain ⟨jo, hjo, hmem⟩ := dumpsL_mem' he ho
+  obtain ⟨_, h4⟩ := sameJson_validates h1 hjo hs hd hf
+  simp only [validate, validateKws, Bool.and_true, List.any_eq_true]
+  exact ⟨jo, hmem, h4⟩
+
 end ParamVerif.Json
